@@ -48,12 +48,13 @@ TEXT = {
               'two environments with pointwise equivalent bindings gives the same RunResult (mutual induction over the compiled '
               'tree on the two runs in lock step: rel_renderNode; eval_rel for expressions; assign/capture/loop/forloop/cycle/'
               'include state threading); run_rep_independent_upto_unmodelled is the same up to the boundary of the model. '
-              'Standard configuration (d = false): stdOut_respects (printing; proved for d = true as well, see below), opEq/opLt/opContains_prep_vrel and '
+              'Standard configuration: stdOut_respects (printing), opEq/opLt/opContains_prep_vrel and '
               'equal_prep_repEq (comparisons), filterRespects_std (exactly: every filter name except sort, sort_natural and those that '
-              'observe the Go representation - the value/debugging filters json, inspect, type) / filterRespects_std_upto (up to '
+              'observe the Go representation - the value/debugging filters json, inspect, type) - these three for EVERY d, i.e. also for the relation '
+              'with drops nested in containers - / filterRespects_std_upto (d = false, up to '
               'unmodelled results: every name except json, inspect, type; uniq respects the equivalence since '
-              'fixes/nested-drops-resolved.patch: uniq_respects for the relation d = false, and answering unmodelled on both sides when an element '
-              'holds a pointer; its element key and loop uniqKey_repEq, uniqOn_rel for every d; '
+              'fixes/nested-drops-resolved.patch: uniq_respects, answering unmodelled on both sides when an element '
+              'holds a pointer; its element key and loop uniqKey_repEq, uniqOn_rel; '
               'filterRespects_of_scalar: any filter whose parameters are all bool/int/float64/string/time, whatever its body; sort '
               'and sort_natural exactly on at most 12 elements (congruence of the insertion-sort model insertionSortM: '
               'sortWith_rel_short, sortNaturalWith_rel_short) and through mergeSort_rel (Proofs.RepEqSort; by the Lean core lemma '
@@ -61,13 +62,27 @@ TEXT = {
               'run_std_rep_independent_partial / run_std_rep_independent_without_repr_filters: on the standard engine with any set of '
               'registered filters that excludes json, inspect and type every template renders to agreeing results (equal, or one run is outside the '
               'model) for environments that differ in typed vs generic slices, fixed arrays, typed maps at any depth and in '
-              'drops/pointers around a binding. Drops nested in containers (d = true): run_stdOut_rep_independent_nested_drops - for '
-              'every comparison/filter layer that respects the equivalence with nested drops, the STANDARD output layer (stdOut_respects t true: '
-              'writeObject writes arrays element by element and maps through fmt.Sprint(values.ResolveDrops(.)); sprintR_norm, writeChunksL_norm '
-              'for every d) and every template render two such environments to the same result; sprintR_repEq (every place that prints in Go '
-              'syntax: Convert to string, join, sort_natural) and uniqKey_repEq / uniqOn_rel (the element key and the loop of uniq) hold for every d, d = true '
-              'included; the congruence of values.Equal / Less / contains and of the filter bodies as filters (uniq_respects too) is proved for the '
-              'relation d = false only. The four former deviations are theorems of the opposite statement, '
+              'drops/pointers around a binding. Drops nested in containers (d = true): run_std_rep_independent_nested_drops - on the standard engine '
+              'without sort, sort_natural, json, inspect, type (stdPrimsOnly coreFilters) every template renders to agreeing results (equal, or one run '
+              'is outside the model) for environments whose bindings have the same Liquid values in any Go representation, drops (and drops that yield drops) at ANY '
+              'depth of arrays and maps included (ERel true; run_std_rep_independent_nested_drops_vrel states the hypothesis as VRel true on bindings none of which is '
+              'the forloop record; run_std_rep_independent_nested_drops_partial for any set of registered filters that excludes those five; '
+              'stdPrims_respect_nested_drops: PrimsRespect true true of that layer; std_filter_respects_nested_drops: FilterRespects false true, exactly, for every other name). '
+              'Operation by operation: values.Equal applies ToLiquid, which follows a chain of drops, to both operands at every depth (Cmp.equalAux_pn_left/right, '
+              'opEq_prep_vrel, equal_prep_repEq for every d), Less orders scalars only (opLt_prep_vrel), an array contains by Equal and a map by its keys '
+              '(opContains_prep_vrel); and/or/truth tests, index and property lookup, first/last/size, loop items, ranges and loop modifiers take the result of a lookup '
+              '- which may BE a drop - through unwrap (test_rel, indexValue_rel, propertyValue_rel, loopItems_unw_rel, intOf_rel: every d); Convert to []any '
+              'passes every element through ToLiquid (convElems_noDrops, toLiquid_repEq), so first, last, reverse, compact, concat, uniq, join, map see no drop at the top of an '
+              'element (a drop that yields nil IS nil for compact and join) and respect drops below it (first_respects ... map_respects, size/default/dividedBy_respects for every d); '
+              'Convert to string prints fmt.Sprint(values.ResolveDrops(.)) (convert_scalar_rel, sprintR_repEq), so every filter with scalar parameters does. '
+              'sort and sort_natural WITH A KEY ARGUMENT do NOT respect nested drops (three evaluated counterexamples in Proofs/C18.lean, each confirmed on the real engine): '
+              '{{ a | sort: "k" | map: "n" | join }} with a = [{"k": 1, "n": "x"}, {"k": Drop(nil), "n": "y"}] renders "x y" and with {"k": nil} "y x" '
+              '(sortableByProperty.Less tests the entry for nil before ToLiquid); {{ a | sort: k | map: "n" | join }} and {{ a | sort_natural: k | map: "n" | join }} with '
+              'entries under the key "[1]" render "x y" for k = [Drop(1)] and "y x" for k = [1] (the name of the key is fmt.Sprint(key), drops unresolved); both filters are '
+              'excluded as a whole (without a key, and sort_natural with a string key, no difference was found; that sub-case is not proved). '
+              'run_stdOut_rep_independent_nested_drops: for every comparison/filter layer that respects the equivalence with nested drops, the STANDARD output layer '
+              '(stdOut_respects t true: writeObject writes arrays element by element and maps through fmt.Sprint(values.ResolveDrops(.)); sprintR_norm, writeChunksL_norm '
+              'for every d) and every template render two such environments to the same result. The four former deviations are theorems of the opposite statement, '
               'evaluated on the same templates and bindings (uniq_typed_nested_slice_repaired, drop_in_printed_map_repaired, '
               'drop_in_array_to_string_repaired, drop_of_drop_in_array_equal_repaired). Forced restrictions are recorded as evaluated counterexamples in '
               'Proofs/C18.lean (type prints the Go type; json/inspect marshal the Go value: '
@@ -100,9 +115,11 @@ TEXT = {
               'relation without drops nested in containers (d = false), up to unmodelled results (agreement is vacuous when either '
               'run is outside the model), and without the filters json, '
               'inspect, type (which observe the Go representation and do not respect the equivalence: counterexamples in Proofs/C18.lean); '
-              'for the relation WITH drops nested in containers (d = true) the output layer (stdOut_respects, run_stdOut_rep_independent_nested_drops), '
-              'printing in Go syntax (sprintR_repEq) and the element key and loop of uniq (uniqKey_repEq, uniqOn_rel) are proved; the standard comparisons '
-              'and the filters as a layer (PrimsRespect t true stdPrims) are not: they are covered by the reps stream and its fixed family only. '
+              'for the relation WITH drops nested in containers (d = true) it is proved likewise, up to unmodelled results, for the standard engine without json, inspect, type '
+              'AND without sort and sort_natural (run_std_rep_independent_nested_drops). NEW DEVIATIONS, not repaired and not in the generated streams nor in the fixed family '
+              '(recorded as evaluated counterexamples in Proofs/C18.lean and confirmed on the real engine by hand): sort by a key does not sort an entry that is a drop yielding nil '
+              'first, and sort / sort_natural name their key by fmt.Sprint without resolving the drops a container key holds. sort and sort_natural WITHOUT a key (and '
+              'sort_natural with a string key) on values with nested drops are neither proved nor refuted: covered by the reps stream and its fixed family only. '
               'Pointers are followed at the top of a binding or expression result only: pointers stored inside maps or arrays '
               '(reached by lookup) and pointers to a struct, range or time are outside the equivalence and covered by the reps '
               'stream only. Numeric width: theorems for printing and truthiness of integers only; comparison by C09 (not audited '
